@@ -113,7 +113,10 @@ class ScriptedFitness:
 
     @staticmethod
     def value_of(parameters):
-        return -sum((i + 1.0) * float(v) ** 2 for i, v in enumerate(parameters))
+        total = 0.0                      # explicit loop: sum() is compensated from Python 3.12 on
+        for i, v in enumerate(parameters):
+            total = total + (i + 1.0) * (float(v) * float(v))
+        return -total
 
     def outcome(self, parameters):
         """What figure_of_metric returns: the value, or None."""
